@@ -33,7 +33,7 @@ where
 /*@*/     requires exists|b: OBox| #[trigger] cleanup_pre(old, new, vstd::prelude::old(ops)@, b),
 /*@*/     ensures
 /*@*/         cleanup_post(old, new, vstd::prelude::old(ops)@, final(ops)@),
-/*@*/         cleanup_post_exact(old, new, vstd::prelude::old(ops)@, final(ops)@),   // [C11]
+/*@*/ /*S*/         cleanup_post_exact(old, new, vstd::prelude::old(ops)@, final(ops)@),   // [C11]
 {
     /*@*/ let ghost ops0 = ops@;
     // First attempt to compact all Deletions
@@ -42,7 +42,7 @@ where
     /*@*/     invariant
     /*@*/         exists|b: OBox| #[trigger] cleanup_pre(old, new, ops@, b),
     /*@*/         cleanup_post(old, new, ops0, ops@),
-    /*@*/         cleanup_post_exact(old, new, ops0, ops@),   // [C11]
+    /*@*/ /*S*/         cleanup_post_exact(old, new, ops0, ops@),   // [C11]
     {
         let op = *op__r;
         /*@*/ proof { let b = choose|b: OBox| cleanup_pre(old, new, ops@, b); assert(inv_pre(old, new, ops@, b)) by { reveal(inv_pre); } lemma_op_usable(old, new, ops@, pointer as int, b); }
@@ -53,7 +53,7 @@ where
             /*@*/     let b = choose|b: OBox| cleanup_pre(old, new, s1, b);
             /*@*/     assert(ops_full(old, new, ops@, b, false)); assert(cleanup_pre(old, new, ops@, b));
             /*@*/     assert forall|b2: OBox| #[trigger] ops_full(old, new, ops0, b2, false) implies ops_full(old, new, ops@, b2, false) by { assert(ops_full(old, new, s1, b2, false)); }
-            /*@*/     assert forall|b2: OBox| #[trigger] ops_full(old, new, ops0, b2, true) implies ops_full(old, new, ops@, b2, true) by { assert(ops_full(old, new, s1, b2, true)); }   // [C11]
+            /*@*/ /*S*/     assert forall|b2: OBox| #[trigger] ops_full(old, new, ops0, b2, true) implies ops_full(old, new, ops@, b2, true) by { assert(ops_full(old, new, s1, b2, true)); }   // [C11]
             /*@*/ }
             /*@*/ let ghost s1 = ops@;
             pointer = shift_diff_ops_down(ops, old, new, pointer);
@@ -61,7 +61,7 @@ where
             /*@*/     let b = choose|b: OBox| cleanup_pre(old, new, s1, b);
             /*@*/     assert(ops_full(old, new, ops@, b, false)); assert(cleanup_pre(old, new, ops@, b));
             /*@*/     assert forall|b2: OBox| #[trigger] ops_full(old, new, ops0, b2, false) implies ops_full(old, new, ops@, b2, false) by { assert(ops_full(old, new, s1, b2, false)); }
-            /*@*/     assert forall|b2: OBox| #[trigger] ops_full(old, new, ops0, b2, true) implies ops_full(old, new, ops@, b2, true) by { assert(ops_full(old, new, s1, b2, true)); }   // [C11]
+            /*@*/ /*S*/     assert forall|b2: OBox| #[trigger] ops_full(old, new, ops0, b2, true) implies ops_full(old, new, ops@, b2, true) by { assert(ops_full(old, new, s1, b2, true)); }   // [C11]
             /*@*/ }
         }
         /*@*/ assert(pointer < ops.len() && ops.len() == ops@.len());
@@ -74,7 +74,7 @@ where
     /*@*/     invariant
     /*@*/         exists|b: OBox| #[trigger] cleanup_pre(old, new, ops@, b),
     /*@*/         cleanup_post(old, new, ops0, ops@),
-    /*@*/         cleanup_post_exact(old, new, ops0, ops@),   // [C11]
+    /*@*/ /*S*/         cleanup_post_exact(old, new, ops0, ops@),   // [C11]
     {
         let op = *op__r;
         /*@*/ proof { let b = choose|b: OBox| cleanup_pre(old, new, ops@, b); assert(inv_pre(old, new, ops@, b)) by { reveal(inv_pre); } lemma_op_usable(old, new, ops@, pointer as int, b); }
@@ -85,7 +85,7 @@ where
             /*@*/     let b = choose|b: OBox| cleanup_pre(old, new, s1, b);
             /*@*/     assert(ops_full(old, new, ops@, b, false)); assert(cleanup_pre(old, new, ops@, b));
             /*@*/     assert forall|b2: OBox| #[trigger] ops_full(old, new, ops0, b2, false) implies ops_full(old, new, ops@, b2, false) by { assert(ops_full(old, new, s1, b2, false)); }
-            /*@*/     assert forall|b2: OBox| #[trigger] ops_full(old, new, ops0, b2, true) implies ops_full(old, new, ops@, b2, true) by { assert(ops_full(old, new, s1, b2, true)); }   // [C11]
+            /*@*/ /*S*/     assert forall|b2: OBox| #[trigger] ops_full(old, new, ops0, b2, true) implies ops_full(old, new, ops@, b2, true) by { assert(ops_full(old, new, s1, b2, true)); }   // [C11]
             /*@*/ }
             /*@*/ let ghost s1 = ops@;
             pointer = shift_diff_ops_down(ops, old, new, pointer);
@@ -93,7 +93,7 @@ where
             /*@*/     let b = choose|b: OBox| cleanup_pre(old, new, s1, b);
             /*@*/     assert(ops_full(old, new, ops@, b, false)); assert(cleanup_pre(old, new, ops@, b));
             /*@*/     assert forall|b2: OBox| #[trigger] ops_full(old, new, ops0, b2, false) implies ops_full(old, new, ops@, b2, false) by { assert(ops_full(old, new, s1, b2, false)); }
-            /*@*/     assert forall|b2: OBox| #[trigger] ops_full(old, new, ops0, b2, true) implies ops_full(old, new, ops@, b2, true) by { assert(ops_full(old, new, s1, b2, true)); }   // [C11]
+            /*@*/ /*S*/     assert forall|b2: OBox| #[trigger] ops_full(old, new, ops0, b2, true) implies ops_full(old, new, ops@, b2, true) by { assert(ops_full(old, new, s1, b2, true)); }   // [C11]
             /*@*/ }
         }
         /*@*/ assert(pointer < ops.len() && ops.len() == ops@.len());
@@ -103,7 +103,7 @@ where
 //@@ end
 
 //@@ item src/algorithms/compact.rs :: ^fn shift_diff_ops_up rw=R0,R8,R2,R10
-/*@*/ #[verifier::rlimit(30)]
+/*@*/ #[verifier::rlimit(150)]
 fn shift_diff_ops_up<Old, New>(
     ops: &mut Vec<DiffOp>,
     old: &Old,
@@ -119,7 +119,7 @@ where
 /*@*/         op_tag(vstd::prelude::old(ops)@[pointer as int]) == DiffTag::Insert || op_tag(vstd::prelude::old(ops)@[pointer as int]) == DiffTag::Delete,
 /*@*/     ensures
 /*@*/         cleanup_post(old, new, vstd::prelude::old(ops)@, final(ops)@),
-/*@*/         cleanup_post_exact(old, new, vstd::prelude::old(ops)@, final(ops)@),   // [C11]
+/*@*/ /*S*/         cleanup_post_exact(old, new, vstd::prelude::old(ops)@, final(ops)@),   // [C11]
 /*@*/         res < final(ops)@.len(), op_tag(final(ops)@[res as int]) == op_tag(vstd::prelude::old(ops)@[pointer as int]),
 {
     /*@*/ let ghost ops0 = ops@; let ghost tag0 = op_tag(ops@[pointer as int]);
@@ -129,7 +129,7 @@ where
     /*@*/         pointer < ops.len(), ops.len() == ops@.len(),
     /*@*/         op_tag(ops@[pointer as int]) == tag0, tag0 == DiffTag::Insert || tag0 == DiffTag::Delete,
     /*@*/         inv_pre(old, new, ops@, bw), inv_post(old, new, ops0, ops@),
-    /*@*/         inv_exact(old, new, ops0, ops@),   // [C11]
+    /*@*/ /*S*/         inv_exact(old, new, ops0, ops@),   // [C11]
     /*@*/     decreases pointer, (if pointer > 0 { olen(ops@[pointer - 1]) } else { 0 }),
     {
         let prev_op = *prev_op__r;
@@ -248,7 +248,7 @@ where
 //@@ end
 
 //@@ item src/algorithms/compact.rs :: ^fn shift_diff_ops_down rw=R0,R8,R2,R10
-/*@*/ #[verifier::rlimit(30)]
+/*@*/ #[verifier::rlimit(150)]
 fn shift_diff_ops_down<Old, New>(
     ops: &mut Vec<DiffOp>,
     old: &Old,
@@ -264,7 +264,7 @@ where
 /*@*/         op_tag(vstd::prelude::old(ops)@[pointer as int]) == DiffTag::Insert || op_tag(vstd::prelude::old(ops)@[pointer as int]) == DiffTag::Delete,
 /*@*/     ensures
 /*@*/         cleanup_post(old, new, vstd::prelude::old(ops)@, final(ops)@),
-/*@*/         cleanup_post_exact(old, new, vstd::prelude::old(ops)@, final(ops)@),   // [C11]
+/*@*/ /*S*/         cleanup_post_exact(old, new, vstd::prelude::old(ops)@, final(ops)@),   // [C11]
 /*@*/         res < final(ops)@.len(), op_tag(final(ops)@[res as int]) == op_tag(vstd::prelude::old(ops)@[pointer as int]),
 {
     /*@*/ let ghost ops0 = ops@; let ghost tag0 = op_tag(ops@[pointer as int]);
@@ -274,7 +274,7 @@ where
     /*@*/         pointer < ops.len(), ops.len() == ops@.len(),
     /*@*/         op_tag(ops@[pointer as int]) == tag0, tag0 == DiffTag::Insert || tag0 == DiffTag::Delete,
     /*@*/         inv_pre(old, new, ops@, bw), inv_post(old, new, ops0, ops@),
-    /*@*/         inv_exact(old, new, ops0, ops@),   // [C11]
+    /*@*/ /*S*/         inv_exact(old, new, ops0, ops@),   // [C11]
     /*@*/     decreases ops@.len() - pointer, (if pointer + 1 < ops@.len() { olen(ops@[pointer + 1]) } else { 0 }),
     {
         let next_op = *next_op__r;
